@@ -52,7 +52,7 @@ def run_find(case, atol=0.05, hints=None, seed=0):
         return find_pattern_in_structure(case['structure'], case['pattern'], return_positions_and_quats=True, atol=atol, **kw)
 
 
-def boundary2_case(offset):
+def boundary2_case(offset, atol=0.05):
     """Planar 6-atom pattern; in the structure the two interior atoms are displaced out of plane by +/-1.0008 atol while the axis /
     orientation atoms are exact: no rotation + translation brings every atom within atol, so it must not be reported."""
     from mofun import Atoms
@@ -60,8 +60,8 @@ def boundary2_case(offset):
     coords = np.array([[0., 0, 0], [3.0, 0, 0], [0.2, 2.6, 0], [2.7, 2.4, 0], [1.4, 1.1, 0], [1.7, 1.5, 0]])
     cell = geo.CELLS['cubic']
     pts = coords + np.array(offset, dtype=float)
-    pts[4, 2] += 1.0008 * 0.05
-    pts[5, 2] -= 1.0008 * 0.05
+    pts[4, 2] += 1.0008 * atol
+    pts[5, 2] -= 1.0008 * atol
     with quiet():
         S = Atoms(elements=list(els), positions=pts, cell=cell)
         P = Atoms(elements=list(els), positions=coords)
@@ -70,9 +70,9 @@ def boundary2_case(offset):
 
 def make_case(spec):
     if spec.get('special') == 'boundary2':
-        return boundary2_case(spec['offset'])
+        return boundary2_case(spec['offset'], spec.get('atol', 0.05))
     if spec.get('special') == 'through-faces':
-        return geo.build_through_faces(spec['cell'], spec['pattern'], random.Random(spec['seed']), depth=spec.get('depth', 0.05), anchor=spec.get('anchor', 0))
+        return geo.build_through_faces(spec['cell'], spec['pattern'], random.Random(spec['seed']), depth=spec.get('depth', 0.05), anchor=spec.get('anchor', 0), only_face=spec.get('face'), decoys=spec.get('decoys', 2))
     if spec.get('special') == 'axis-poses':
         return geo.build_axis_poses(spec['cell'], spec['pattern'], random.Random(spec['seed']), spec['which'])
     rnd = random.Random(spec['seed'])
@@ -102,9 +102,10 @@ def replay(inp):
 def replay_boundary(inp):
     worst = None
     for off in ([1.5, 1.5, 1.5], [15.5, 16.0, 16.5], [8.0, 15.0, 3.0]):
-        msgs, n = check_case(dict(special='boundary2', offset=off, seed=0))
-        if msgs:
-            worst = "copy at offset %r: %s" % (off, msgs[0])
+        for atol in (0.05, 0.004, 0.02, 0.11):
+            msgs, n = check_case(dict(special='boundary2', offset=off, seed=0, atol=atol))
+            if msgs:
+                worst = "copy at offset %r searched with atol %r: %s" % (off, atol, msgs[0])
     return (worst is not None), (worst or 'the copy at the tolerance boundary is rejected everywhere in the cell')
 
 
@@ -123,8 +124,24 @@ def specs(tier, seed):
                     out.append(dict(cell=cell, pattern=pat, copies=copies, seed=seed * 1000 + s, noise=0.008 if s % 2 else 0.0,
                                     decoys=3, mirror=1 if pat == 'chiral4' else 0, near_miss=1 if len(geo.PATTERNS[pat][0]) > 1 else 0,
                                     rng=s))
+    # requested tolerances other than the default (tighter and wider), distortions and near misses scaled with them
+    for pat in ('planar3', 'chiral4', 'sym5'):
+        for ci, cell in enumerate(cells):
+            for s, atol in enumerate((0.01, 0.1) if tier == 'quick' else (0.004, 0.01, 0.02, 0.1, 0.15)):
+                out.append(dict(cell=cell, pattern=pat, copies=2, seed=seed * 1000 + 700 + s + ci, noise=0.16 * atol, decoys=2, mirror=1 if pat == 'chiral4' else 0,
+                                near_miss=1, rng=s, atol=atol))
+    # a pattern spanning more than half a cell edge (cell still wider than the pattern + 2 atol): images must be taken per atom
+    for cell in ('small', 'small-tri'):
+        for s in range(3 if tier == 'quick' else 12):
+            out.append(dict(cell=cell, pattern='long5', copies=1, seed=seed * 1000 + 800 + s, rng=s, noise=0.005 if s % 2 else 0.0))
+    for cell in ('small', 'small-tri'):
+        for face in range(6):
+            if tier == 'quick' and (face + (cell == 'small')) % 2:
+                continue
+            out.append(dict(special='through-faces', cell=cell, pattern='long5', seed=seed * 1000 + 820 + face, rng=face, face=face, decoys=0))
     for off in ([1.5, 1.5, 1.5], [15.5, 16.0, 16.5], [8.0, 15.0, 3.0]):
-        out.append(dict(special='boundary2', offset=off, seed=0))
+        for atol in (0.05, 0.004, 0.02, 0.11):
+            out.append(dict(special='boundary2', offset=off, seed=0, atol=atol))
     for ci, cell in enumerate(cells):
         for s in range(2 if tier == 'quick' else 8):
             out.append(dict(cell=cell, pattern='nearlinear3', copies=2, seed=seed * 1000 + 300 + s, decoys=2, bent=2, rng=s))
